@@ -25,34 +25,107 @@ ASSUMPTIONS = ["floating-point rounding is outside the theorems (the property it
                "which stays below the tolerance because the shortest compartment is >= 1/512 of the neuron's extent"]
 
 
-def features(t, sholl_rs):
+# Whole-tree calls of the "observed at" entry points that a measuring protocol may make on a Tree object before (or between) the
+# morphometrics proper: name -> (category, call).  The category says what the property states about the value: "count" (unchanged, exact),
+# "length" (×s), "ratio" (unchanged), "volume" (×s^3), "free" (a pose-DEPENDENT or resolution-dependent figure: called, never compared).
+def _protocol_calls(t, sholl_rs):
+    from swcgeom.analysis import Sholl, get_volume
+    from swcgeom.analysis.feature_extractor import extract_feature
+    from swcgeom.analysis.lmeasure import LMeasure
+
+    lm = LMeasure()
+    ef = lambda name, **kw: (lambda: sorted(float(v) for v in np.asarray(extract_feature(t).get(name, **kw)).ravel()))
+    calls = {
+        "lm.n_stems": ("count", lambda: int(lm.n_stems(t))), "lm.n_bifs": ("count", lambda: int(lm.n_bifs(t))),
+        "lm.n_branch": ("count", lambda: int(lm.n_branch(t))), "lm.n_tips": ("count", lambda: int(lm.n_tips(t))),
+        "lm.width": ("free", lambda: float(lm.width(t))), "lm.height": ("free", lambda: float(lm.height(t))),
+        "lm.depth": ("free", lambda: float(lm.depth(t))), "lm.soma_surface": ("free", lambda: float(lm.soma_surface(t))),
+        "sholl.steps7": ("free", lambda: [int(v) for v in Sholl(t).get(steps=7)]),
+        "get_volume.low": ("volume", lambda: float(get_volume(t, accuracy="low"))),
+        "ef.length": ("length", ef("length")), "ef.volume": ("volume", ef("volume", accuracy=3)),
+        "ef.sholl": ("count", lambda: [int(v) for v in extract_feature(t).get("sholl", steps=list(sholl_rs))]),
+        "ef.node_count": ("count", ef("node_count")), "ef.tip_count": ("count", ef("tip_count")),
+        "ef.furcation_count": ("count", ef("furcation_count")),
+        "ef.node_branch_order": ("count", ef("node_branch_order")),
+        "ef.branch_length": ("length", ef("branch_length")), "ef.path_length": ("length", ef("path_length")),
+        "ef.node_radial_distance": ("length", ef("node_radial_distance")), "ef.tip_radial_distance": ("length", ef("tip_radial_distance")),
+        "ef.branch_tortuosity": ("ratio", ef("branch_tortuosity")), "ef.path_tortuosity": ("ratio", ef("path_tortuosity")),
+    }
+    return calls
+
+
+PROTOCOL_POOL = ["lm.n_stems", "lm.n_bifs", "lm.n_branch", "lm.n_tips", "lm.width", "lm.height", "lm.depth", "lm.soma_surface", "sholl.steps7",
+                 "get_volume.low", "ef.length", "ef.volume", "ef.sholl", "ef.node_count", "ef.tip_count", "ef.furcation_count",
+                 "ef.node_branch_order", "ef.branch_length", "ef.path_length", "ef.node_radial_distance", "ef.tip_radial_distance",
+                 "ef.branch_tortuosity", "ef.path_tortuosity"]
+
+
+def features(t, sholl_rs, protocol=None, order_seed=None):
+    """All morphometrics of the property, taken on the ONE Tree object `t`.  `protocol` = names of whole-tree calls made on the same object
+    first (their values are returned under "pre"); `order_seed` shuffles the order in which the blocks of morphometrics are evaluated."""
+    import random as _r
+
     from swcgeom.analysis import Sholl, get_volume
     from swcgeom.analysis.features import BranchFeatures, FurcationFeatures, NodeFeatures, PathFeatures, TipFeatures
     from swcgeom.analysis.lmeasure import LMeasure
 
     with warnings.catch_warnings():
         warnings.simplefilter("ignore")
-        nf = NodeFeatures(t)
-        pf, bf = PathFeatures(t), BranchFeatures(t)
+        out = {}
+        if protocol:
+            calls = _protocol_calls(t, sholl_rs)
+            out["pre"] = [[name, calls[name][0], calls[name][1]()] for name in protocol]
         lm = LMeasure()
-        out = {"length": float(t.length()),
-               "branch_length": sorted(float(v) for v in bf.get_length()), "path_length": sorted(float(v) for v in pf.get_length()),
-               "branch_tortuosity": sorted(float(v) for v in bf.get_tortuosity()), "path_tortuosity": sorted(float(v) for v in pf.get_tortuosity()),
-               "radial": sorted(float(v) for v in nf.get_radial_distance()),
-               "counts": [float(nf.get_count()[0]), float(TipFeatures(nf).get_count()[0]), float(FurcationFeatures(nf).get_count()[0]), float(bf.get_count()), float(pf.get_count())],
-               "branch_order": sorted(int(v) for v in nf.get_branch_order()) if t.number_of_nodes() > 1 else [0],
-               "lm_branch_order": sorted(int(lm.branch_order(t.node(i))) for i in range(t.number_of_nodes())),
-               "terminal_degree": sorted(int(lm.terminal_degree(t.node(i))) for i in range(t.number_of_nodes())),
-               "volume": float(get_volume(t, accuracy=3))}
-        if t.number_of_nodes() > 1:
-            out["sholl"] = [int(v) for v in Sholl(t).get(steps=list(sholl_rs))]
-        angles, pas = [], []
-        pid = t.pid()
-        for v in range(t.number_of_nodes()):
-            if int(np.count_nonzero(pid == v)) == 2:
-                angles.append(float(lm.bif_ampl_local(t.node(v)))); angles.append(float(lm.bif_ampl_remote(t.node(v))))
-                pas.append(float(lm.partition_asymmetry(t.node(v))))
-        out["angles"] = sorted(angles); out["partition_asymmetry"] = sorted(pas)
+        n = t.number_of_nodes()
+        cnt = {}
+
+        def b_length():
+            out["length"] = float(t.length())
+
+        def b_branch():
+            bf = BranchFeatures(t)
+            out["branch_length"] = sorted(float(v) for v in bf.get_length())
+            out["branch_tortuosity"] = sorted(float(v) for v in bf.get_tortuosity())
+            cnt["branch"] = float(bf.get_count())
+
+        def b_path():
+            pf = PathFeatures(t)
+            out["path_length"] = sorted(float(v) for v in pf.get_length())
+            out["path_tortuosity"] = sorted(float(v) for v in pf.get_tortuosity())
+            cnt["path"] = float(pf.get_count())
+
+        def b_node():
+            nf = NodeFeatures(t)
+            out["radial"] = sorted(float(v) for v in nf.get_radial_distance())
+            cnt["node"] = float(nf.get_count()[0]); cnt["tip"] = float(TipFeatures(nf).get_count()[0]); cnt["furcation"] = float(FurcationFeatures(nf).get_count()[0])
+            out["branch_order"] = sorted(int(v) for v in nf.get_branch_order()) if n > 1 else [0]
+
+        def b_orders():
+            out["lm_branch_order"] = sorted(int(lm.branch_order(t.node(i))) for i in range(n))
+            out["terminal_degree"] = sorted(int(lm.terminal_degree(t.node(i))) for i in range(n))
+
+        def b_volume():
+            out["volume"] = float(get_volume(t, accuracy=3))
+
+        def b_sholl():
+            if n > 1:
+                out["sholl"] = [int(v) for v in Sholl(t).get(steps=list(sholl_rs))]
+
+        def b_angles():
+            angles, pas = [], []
+            pid = t.pid()
+            for v in range(n):
+                if int(np.count_nonzero(pid == v)) == 2:
+                    angles.append(float(lm.bif_ampl_local(t.node(v)))); angles.append(float(lm.bif_ampl_remote(t.node(v))))
+                    pas.append(float(lm.partition_asymmetry(t.node(v))))
+            out["angles"] = sorted(angles); out["partition_asymmetry"] = sorted(pas)
+
+        blocks = [b_node, b_path, b_branch, b_length, b_orders, b_volume, b_sholl, b_angles]
+        if order_seed is not None:
+            _r.Random(order_seed).shuffle(blocks)
+        for b in blocks:
+            b()
+        out["counts"] = [cnt["node"], cnt["tip"], cnt["furcation"], cnt["branch"], cnt["path"]]
     return out
 
 
@@ -134,6 +207,65 @@ def spiny(rng, t):
     return new
 
 
+SOMA_LAYOUTS = ["three-point", "three-point", "cylinders", "contour"]
+
+
+def with_soma(rng, t, layout):
+    """The same neuron with its soma written the way SWC files write somata (the property says "for all trees"; the other generators
+    only make the one-sample soma).  `t` has a type-1 root and type-3 neurites; positions are on the 1/64 grid.
+      * three-point: the standard three-sample soma - centre of radius rs plus two type-1 leaf samples of the same radius, rs to either
+        side of the centre along ONE COORDINATE AXIS of the file pose (the format puts them along y; x and z are drawn too);
+      * cylinders: the soma as a short stack of wide type-1 compartments leaving the centre along a coordinate axis;
+      * contour: a ring of small type-1 leaf samples around the centre, in a coordinate plane.
+    The soma samples are numbered right after the root (as files do) or anywhere (a renumbering is applied half of the time)."""
+    rs = rng.choice([0.5, 0.75, 1.0, 1.5, 2.0, 3.0])
+    axis = rng.choice([1, 1, 0, 2])
+    c = list(t["xyz"][0])
+    e = [0.0, 0.0, 0.0]; e[axis] = 1.0
+    if layout == "three-point":
+        add = [(0, [c[k] - rs * e[k] for k in range(3)], rs), (0, [c[k] + rs * e[k] for k in range(3)], rs)]
+    elif layout == "cylinders":
+        add, prev, pos = [], 0, c
+        for j in range(rng.randint(1, 3)):
+            step = rng.choice([0.5, 1.0, rs])
+            pos = [pos[k] + step * e[k] for k in range(3)]
+            add.append((prev, pos, rng.choice([rs, rs / 2, rs * 0.75])))
+            prev = -(j + 1)                  # placeholder: the j-th added sample
+    else:
+        m = rng.choice([4, 6, 8])
+        u, v = [(1, 2), (0, 2), (0, 1)][axis]
+        add = []
+        for j in range(m):
+            q = list(c); a = 2 * math.pi * j / m
+            q[u] += round(rs * math.cos(a) * 64) / 64.0; q[v] += round(rs * math.sin(a) * 64) / 64.0
+            add.append((0, q, rng.choice([0.125, 0.25])))
+    k = len(add)
+    sh = lambda p: -1 if p == -1 else (0 if p == 0 else p + k)
+    new = {"n": t["n"] + k, "pids": [-1], "types": [1], "xyz": [c], "r": [rs]}
+    for j, (p, q, r) in enumerate(add):
+        new["pids"].append(0 if p == 0 else -p); new["types"].append(1); new["xyz"].append([float(x) for x in q]); new["r"].append(float(r))
+    for i in range(1, t["n"]):
+        new["pids"].append(sh(t["pids"][i])); new["types"].append(t["types"][i]); new["xyz"].append(list(t["xyz"][i])); new["r"].append(t["r"][i])
+    if len({tuple(q) for q in new["xyz"]}) != new["n"]:
+        return None
+    if rng.random() < 0.5:
+        new = relabel(rng, new)
+    return new
+
+
+def _motion(rng):
+    ax = [rng.gauss(0, 1) for _ in range(3)]; nrm = math.sqrt(sum(a * a for a in ax)) or 1.0
+    return {"axis": [a / nrm for a in ax], "theta": rng.uniform(-3.1, 3.1), "shift": [rng.randint(-80, 80) / 4 for _ in range(3)],
+            "center": rng.choice(["root", "origin"])}
+
+
+def _axis_motion(rng):
+    """a quarter / half turn or a small tilt about one coordinate axis (the re-orientations made by hand: y-up <-> z-up, flips)"""
+    ax = [0.0, 0.0, 0.0]; ax[rng.randrange(3)] = rng.choice([-1.0, 1.0])
+    return {"axis": ax, "theta": rng.choice([math.pi / 2, math.pi, -math.pi / 2, math.radians(rng.uniform(5, 60))]),
+            "shift": [rng.randint(-80, 80) / 4 for _ in range(3)], "center": rng.choice(["root", "origin"])}
+
+
 class Metamorphic(Suite):
     name = "c11.metamorphic"
     case_timeout = 180
@@ -213,6 +345,53 @@ class Metamorphic(Suite):
             ax = [rng.gauss(0, 1) for _ in range(3)]; nrm = math.sqrt(sum(v * v for v in ax)) or 1.0
             out.append({"class": "rigid/collinear", "tree": t, "kind": "rigid", "axis": [v / nrm for v in ax], "theta": rng.uniform(-3.1, 3.1),
                         "shift": [rng.randint(-80, 80) / 4 for _ in range(3)], "center": rng.choice(["root", "origin"])})
+        # somata written as SWC files write them (three-point soma, cylinder stack, contour), under each kind of change; the rigid
+        # motions include turns about a single coordinate axis
+        k = 0
+        for n in [5, 8, 13] + ([21, 50] if big else []):
+            for layout in SOMA_LAYOUTS:
+                for _ in range(1 if not big else 3):
+                    shape = ["stem", "star", "random", "caterpillar", "binary", "highdeg"][k % 6]; k += 1
+                    t = gen.tree_case(rng, n, shape, numbering=rng.choice(["sorted", "root0"]), coords="dyadic", types="soma3")
+                    t["xyz"] = [[c / 64.0 for c in p] for p in t["xyz"]]
+                    t["r"] = [max(0.125, v / 16.0) for v in t["r"]]
+                    t = with_soma(rng, t, layout)
+                    if t is None:
+                        continue
+                    cl = f"soma/{layout}"
+                    out.append(dict({"class": f"rigid/{cl}", "tree": t, "kind": "rigid"}, **_motion(rng)))
+                    out.append(dict({"class": f"rigid-axis/{cl}", "tree": t, "kind": "rigid"}, **_axis_motion(rng)))
+                    out.append({"class": f"relabel/{cl}", "tree": t, "kind": "relabel", "perm_seed": rng.randrange(10**6)})
+                    out.append({"class": f"scale/{cl}", "tree": t, "kind": "scale", "s": rng.choice([0.5, 2.0, 3.0, 0.25, 1.5])})
+                    out.append({"class": f"unit/{cl}", "tree": t, "kind": "scale", "s": UNIT_SCALES[k % len(UNIT_SCALES)]})
+                    out.append({"class": f"far/{cl}", "tree": t, "kind": "far", "shift": [rng.choice([-1, 1]) * rng.choice(FAR_SHIFTS) for _ in range(3)]})
+        # measuring protocols: the neuron and its changed copy are each measured by the SAME sequence of calls on the one Tree object -
+        # some whole-tree calls of the observed entry points first (every one of PROTOCOL_POOL is used), then the morphometrics in a
+        # shuffled order; the changed copy is derived from the measured object or from a freshly built one
+        pool = list(PROTOCOL_POOL); rng.shuffle(pool)
+        k = 0
+        for rep in range(2 * len(pool) if not big else 6 * len(pool)):
+            n = [8, 13, 21, 5, 34][rep % 5]
+            shape = ["random", "caterpillar", "binary", "stem", "highdeg", "star"][rep % 6]
+            t = gen.tree_case(rng, n, shape, numbering=rng.choice(["sorted", "root0"]), coords="dyadic", types="soma3")
+            t["xyz"] = [[c / 64.0 for c in p] for p in t["xyz"]]
+            t["r"] = [max(0.125, v / 16.0) for v in t["r"]]
+            if len({tuple(p) for p in t["xyz"]}) != t["n"]:
+                continue
+            # every call of the pool leads one protocol under a rotation or a renumbering and one under a scaling or a far translation
+            proto = [pool[rep % len(pool)]] + [rng.choice(pool) for j in range(rng.randint(0, 3))]
+            kind = [["rigid", "relabel"], ["scale", "far"], ["relabel", "rigid"], ["far", "scale"]][(rep // len(pool)) % 4][rep % 2]
+            c = {"class": f"protocol/{kind}", "tree": t, "kind": kind, "protocol": proto, "order_seed": rng.randrange(10**6),
+                 "source": rng.choice(["measured", "fresh"])}
+            if kind == "rigid":
+                c.update(_motion(rng))
+            elif kind == "relabel":
+                c.update(perm_seed=rng.randrange(10**6))
+            elif kind == "scale":
+                c.update(s=rng.choice([0.5, 2.0, 3.0, 1.5, UNIT_SCALES[rep % len(UNIT_SCALES)]]))
+            else:
+                c.update(shift=[rng.choice([-1, 1]) * rng.choice(FAR_SHIFTS) for _ in range(3)])
+            out.append(c)
         return out
 
     def _radii(self, t):
@@ -230,27 +409,31 @@ class Metamorphic(Suite):
 
         t0 = gen.make_tree(case["tree"])
         rs = self._radii(case["tree"])
-        f0 = features(t0, rs)
+        proto, order = case.get("protocol"), case.get("order_seed")
+        f0 = features(t0, rs, proto, order)
         kind = case["kind"]
+        if case.get("source") == "fresh":      # the changed copy is made from a newly built object, not from the one just measured
+            t0 = gen.make_tree(case["tree"])
         with warnings.catch_warnings():
             warnings.simplefilter("ignore")
             if kind == "rigid":
                 t1 = Translate(*case["shift"])(Rotate(np.array(case["axis"]), case["theta"], center=case["center"])(t0))
-                f1 = features(t1, rs)
+                f1 = features(t1, rs, proto, order)
             elif kind == "far":
                 t1 = Translate(*case["shift"])(t0)
-                want = (np.array(case["tree"]["xyz"], dtype=np.float64) + np.array(case["shift"])).astype(np.float32)
-                if not np.array_equal(t1.xyz(), want) or not np.array_equal((want.astype(np.float64) - np.array(case["shift"])).astype(np.float32), t0.xyz()):
+                X = np.array(case["tree"]["xyz"], dtype=np.float64)          # exactness is judged on the case data alone
+                want = (X + np.array(case["shift"])).astype(np.float32)
+                if not np.array_equal(want.astype(np.float64) - np.array(case["shift"]), X) or not np.array_equal(X.astype(np.float32).astype(np.float64), X):
                     return {"skip": "translation not exact in float32"}
-                f1 = features(t1, rs)
+                f1 = features(t1, rs, proto, order)
             elif kind == "scale":
                 s = case["s"]
                 t1 = Scale(s, s, s, center="origin")(t0)
                 t1.ndata["r"] = t1.ndata["r"] * np.float32(s)
-                f1 = features(t1, [r * s for r in rs])
+                f1 = features(t1, [r * s for r in rs], proto, order)
             else:
                 t1 = gen.make_tree(relabel(_r.Random(case["perm_seed"]), case["tree"]))
-                f1 = features(t1, rs)
+                f1 = features(t1, rs, proto, order)
         out = {"before": f0, "after": f1}
         if kind == "rigid":
             out["moved"] = t1.xyz().astype(float).tolist()
@@ -277,16 +460,21 @@ class Metamorphic(Suite):
             return [("invariance-raises", f"{case['kind']}: {res['exc']}: {res.get('msg')}")]
         if "skip" in res:
             return []
-        a, b = res["before"], res["after"]
+        a, b = res.get("before"), res.get("after")
+        if not isinstance(a, dict) or not isinstance(b, dict):
+            return [("invariance-malformed", f"{case['kind']}: no morphometrics returned: {str(res)[:200]}")]
         s = case.get("s", 1.0)
         out = []
         tol = 3e-4 if case["kind"] != "far" else 2e-5
 
         def close(x, y, scale=1.0):
             if isinstance(x, list):
-                return len(x) == len(y) and all(close(u, v, scale) for u, v in zip(x, y))
+                return isinstance(y, list) and len(x) == len(y) and all(close(u, v, scale) for u, v in zip(x, y))
             # relative at every scale: the absolute floor (1 length unit of the ORIGINAL neuron) is carried along by the scale factor
-            return abs(y - x * scale) <= tol * max(scale, abs(x * scale))
+            try:
+                return bool(abs(y - x * scale) <= tol * max(scale, abs(x * scale)))
+            except TypeError:
+                return False
 
         kind = case["kind"]
         # The library's closed-form sphere/frustum overlap treats a radius step of less than 1e-6 LENGTH UNITS as "no taper" (an absolute band,
@@ -297,22 +485,44 @@ class Metamorphic(Suite):
         tr = case["tree"]
         steps = [abs(tr["r"][i] - tr["r"][p]) for i, p in enumerate(tr["pids"]) if p >= 0 and tr["r"][i] != tr["r"][p]]
         volume_band = kind == "scale" and bool(steps) and min(steps) * min(1.0, s) < 1e-5
+        what = {"rigid": "rotating/translating the neuron", "relabel": "renumbering the nodes", "scale": f"scaling by {s}",
+                "far": f"translating the neuron by {case.get('shift')} (exactly representable)"}.get(kind, kind)
+        proto = f"; both measured by the calls {case['protocol']} followed by the morphometrics, on one Tree object each" if case.get("protocol") else ""
         for key, power in (("length", 1), ("branch_length", 1), ("path_length", 1), ("radial", 1), ("volume", 3),
                            ("branch_tortuosity", 0), ("path_tortuosity", 0), ("angles", 0), ("partition_asymmetry", 0)):
-            if key == "angles" and not close(a[key], b[key]):
+            x, y = a.get(key), b.get(key)
+            if x is None or y is None:
+                out.append((f"{kind}-changes-{key}", f"{key} missing: {x} / {y}"))
+                continue
+            if key == "angles" and not close(x, y):
                 # angles are in degrees; allow 0.05°
-                if len(a[key]) == len(b[key]) and all(abs(u - v) <= 0.05 for u, v in zip(a[key], b[key])):
-                    continue
+                try:
+                    if len(x) == len(y) and all(abs(u - v) <= 0.05 for u, v in zip(x, y)):
+                        continue
+                except TypeError:
+                    pass
             if key == "volume" and volume_band:
                 continue
-            if not close(a[key], b[key], s ** power):
-                what = {"rigid": "rotating/translating the neuron", "relabel": "renumbering the nodes", "scale": f"scaling by {s}",
-                        "far": f"translating the neuron by {case.get('shift')} (exactly representable)"}[kind]
+            if not close(x, y, s ** power):
                 exp = "unchanged" if power == 0 or kind != "scale" else f"×{s}^{power}"
-                out.append((f"{kind}-changes-{key}", f"{what} turned {key} {str(a[key])[:120]} into {str(b[key])[:120]} (expected {exp}); pids={case['tree']['pids']}"))
+                out.append((f"{kind}-changes-{key}", f"{what} turned {key} {str(x)[:120]} into {str(y)[:120]} (expected {exp}); pids={case['tree']['pids']}{proto}"))
         for key in ("counts", "branch_order", "lm_branch_order", "terminal_degree", "sholl"):
             if key in a and a[key] != b.get(key):
-                out.append((f"{kind}-changes-{key}", f"{key} changed from {a[key]} to {b.get(key)} under {kind}; pids={case['tree']['pids']}"))
+                out.append((f"{kind}-changes-{key}", f"{key} changed from {a[key]} to {b.get(key)} under {kind}; pids={case['tree']['pids']}{proto}"))
+        # the values returned by the calls of the protocol themselves, where the property states what happens to them
+        pa, pb = a.get("pre") or [], b.get("pre") or []
+        if len(pa) != len(pb):
+            out.append((f"{kind}-changes-protocol", f"protocol values {str(pa)[:120]} / {str(pb)[:120]}"))
+        for ea, eb in zip(pa, pb):
+            try:
+                (name, cat, x), y = ea, eb[2]
+            except (TypeError, ValueError, IndexError):
+                out.append((f"{kind}-changes-protocol", f"malformed protocol values {str(ea)[:80]} / {str(eb)[:80]}")); continue
+            power = {"length": 1, "volume": 3, "ratio": 0}.get(cat)
+            if cat == "free" or (cat == "volume" and volume_band):
+                continue
+            if (x != y) if cat == "count" else not close(x, y, s ** power):
+                out.append((f"{kind}-changes-{name}", f"{what} turned {name} {str(x)[:120]} into {str(y)[:120]}; pids={case['tree']['pids']}{proto}"))
         return out[:3]
 
     def nontrivial(self, case, res):
@@ -322,7 +532,7 @@ class Metamorphic(Suite):
 SUITES = [Metamorphic()]
 TECHNIQUE = ("Lean 4 theorems: rigid motions built from the REGENERATED matrices preserve all squared inter-node distances (C12) and the feature models take distances "
              "only; scaling multiplies lengths by s, leaves ratios and the Sholl profile (radii scaled along) unchanged, and the REGENERATED volume forms are homogeneous "
-             "of degree 3; renumbering permutes the summands of the length + metamorphic testing of the real library (rotate / translate / renumber / scale, compare all features)")
+             "of degree 3; renumbering permutes the summands of the length + metamorphic testing of the real library (rotate / translate / renumber / scale, compare all features; neurons with three-point / cylinder / contour somata; measuring protocols: whole-tree calls of LMeasure / extract_feature / Sholl / get_volume on the same Tree object before the morphometrics, in shuffled order)")
 LEVEL_TEXT = ("Kernel-checked: translation and rotation (axis rotations about origin or root) leave every squared inter-node distance unchanged, uniform scaling multiplies "
               "it by s²; the feature models are functions of the parent list and the distances only; under scaling by s lengths and path distances scale by s, ratios do not "
               "change, the Sholl count with radii scaled by s does not change, sphere / cap / frustum / lens / sphere∩frustum volumes scale by s³; total length is invariant "
